@@ -178,6 +178,8 @@ pub struct Kernel {
     /// cooperative fault points: when the named probe (a log line of the code under test) fires, the
     /// task that logged it is descheduled for up to `max` steps with probability `per_mille`/1000
     pub stall_probes: Vec<(String, u32, u32)>,
+    /// simulated time until which each task stays descheduled (time-based stalls of Policy::Stall)
+    pub stalled_until_time: Vec<u64>,
     pub pct_points: Vec<u64>,
     pub finished: bool,
     pub truncated: bool,
@@ -262,6 +264,7 @@ impl Kernel {
             prio: Vec::new(),
             paused_until: Vec::new(),
             stall_probes: Vec::new(),
+            stalled_until_time: Vec::new(),
             pct_points: Vec::new(),
             finished: false,
             truncated: false,
@@ -518,6 +521,12 @@ impl Kernel {
                         }
                     }
                 }
+                if let Some(&t) = self.stalled_until_time.get(id) {
+                    if t > self.now {
+                        next_t = next_t.min(t);
+                        continue;
+                    }
+                }
                 match self.waits.get(id).and_then(|w| w.as_ref()) {
                     None => cands.push(id),
                     Some(w) => match self.eval(w) {
@@ -565,11 +574,22 @@ impl Kernel {
                 let steps = self.stats.steps;
                 if let Some(c) = current {
                     if (self.sched_rng.next_u64() & 0xff) < p as u64 {
-                        if self.paused_until.len() <= c {
-                            self.paused_until.resize(c + 1, 0);
+                        if self.sched_rng.below(8) == 0 {
+                            // descheduled for a stretch of simulated time (50 us - 3 ms): long enough for
+                            // a network round trip to complete meanwhile
+                            let d = 50_000 + self.sched_rng.below(3_000_000);
+                            if self.stalled_until_time.len() <= c {
+                                self.stalled_until_time.resize(c + 1, 0);
+                            }
+                            self.stalled_until_time[c] = self.now + d;
+                            self.fault("task_stall_time");
+                        } else {
+                            if self.paused_until.len() <= c {
+                                self.paused_until.resize(c + 1, 0);
+                            }
+                            self.paused_until[c] = steps + 10 + self.sched_rng.below(max as u64);
+                            self.fault("task_stall");
                         }
-                        self.paused_until[c] = steps + 10 + self.sched_rng.below(max as u64);
-                        self.fault("task_stall");
                     }
                 }
                 let awake: Vec<usize> = cands.iter().copied().filter(|id| self.paused_until.get(*id).copied().unwrap_or(0) <= steps).collect();
